@@ -525,7 +525,7 @@ def parseQuotedDec (v : String) : Option Int :=
 def aclOwnerOK (o : List Char) : Bool :=
   o.isEmpty || (o.length == 40 && o.all fun c => c.isDigit || ('a' ≤ c && c ≤ 'f'))
 
-/-- an address as its JSON form admits it: the empty string (no address) or 40 lower-case hex digits -/
+/-- an address as its JSON form allows it: the empty string (no address) or 40 lower-case hex digits -/
 def parseQuotedAddr (v : String) : Option Addr :=
   (unquote v).bind fun cs => if aclOwnerOK cs then some (String.ofList cs) else none
 
